@@ -208,6 +208,9 @@ def cmd_text(ws, l):
     if t.get("raw"):
         return "printf '%s\\n' " + q(l) + ' >> "$VERIF_TRACE"\n' + t["raw"]
     L = [": " + q(t["salt"]), "printf '%s\\n' " + q(l) + ' >> "$VERIF_TRACE"']
+    if t.get("slow"):
+        # a command that is still running when the build is interrupted (a shell loop: killing the shell ends it)
+        L.append("i=0; while [ $i -lt %d ]; do sleep 0.1; i=$((i+1)); done" % int(t["slow"]))
     beh = t.get("beh", 0)
     if beh == 1:
         L.append("exit 3")
@@ -254,7 +257,7 @@ def cmd_text(ws, l):
     written = [o for o in sorted_outs(t) if o["rel"] not in t.get("skip", []) and not o.get("bin")]
     for k, o in enumerate(written):
         p = out_path(t, o)
-        hdr = "printf 'T %s %s\\n' " + q(t["salt"]) + " " + q(p)
+        hdr = "printf 'T %s %s\\n' " + q(t["salt"]) + ('"@$GROG_OS/$GROG_ARCH"' if t.get("usesplat") else "") + " " + q(p)
         if o["dir"]:
             D = '"$W/' + p
             L.append('rm -rf ' + D + '"; mkdir -p ' + D + '/sub"')
@@ -285,6 +288,10 @@ def cmd_text(ws, l):
 
 def check_cmd(chk):
     f = '"$GROG_WORKSPACE_ROOT/' + chk["flag"] + '"'
+    if chk.get("rel"):
+        f = q(chk["rel"])               # relative to the package directory: the same text in every package
+    if chk.get("envvar"):
+        f = '"$' + chk["envvar"] + '"'  # the file is named by a per-target environment variable
     form = chk.get("form", 0)
     if chk["exp"] is None:
         # shell-level variety: a failing non-final element of an && list and a negated pipeline do not trigger `set -e`;
@@ -312,6 +319,12 @@ def build_files(ws):
             d["fingerprint"] = dict(t["fp"])
         if t.get("nocache"):
             d["tags"] = ["no-cache"]
+        if t.get("mpc"):
+            d["tags"] = d.get("tags", []) + ["multiplatform-cache"]
+        if t.get("platforms"):
+            d["platforms"] = list(t["platforms"])
+        if t.get("env"):
+            d["environment_variables"] = dict(t["env"])
         if t.get("checks"):
             d["output_checks"] = [check_cmd(c) for c in t["checks"]]
         if t.get("beh", 0) == 2:
@@ -368,6 +381,9 @@ def sync_ws(root, old, new):
 def apply_writes(root, writes):
     for w in writes:
         if isinstance(w, dict):
+            if "stampall" in w:
+                stamp_all(root, w["stampall"])
+                continue
             if "dirtamper" in w:
                 d = os.path.join(root, w["dirtamper"])
                 if os.path.isdir(d):
@@ -397,6 +413,15 @@ def apply_writes(root, writes):
                     pass
         else:
             write_file(root, p, c)
+
+
+def stamp_all(root, ns):
+    """a checkout tool that restores timestamps: every regular file of the workspace gets the same modification time"""
+    for dp, dns, fns in os.walk(root):
+        for fn in fns:
+            fp = os.path.join(dp, fn)
+            if os.path.isfile(fp) and not os.path.islink(fp):
+                os.utime(fp, ns=(ns, ns))
 
 
 DIR_MAGIC = b"\x00DIR\x00"
@@ -479,6 +504,30 @@ def run_grog(grog, wsdir, root_dir, trace, args, timeout=40):
         return 124, "TIMEOUT after %ss: " % timeout + " ".join(args) + "\n" + out[-2500:]
 
 
+def run_grog_interrupted(grog, wsdir, root_dir, trace, args, spec, pos, timeout=40):
+    """run a build and send it a signal (SIGINT / SIGTERM: Ctrl-C, a cancelled CI job) as soon as the command of target
+    spec["when_started"] has started (its label is in the trace). rc 125 = the label never showed up (no signal sent)."""
+    import signal, time
+    p = subprocess.Popen([grog] + args, cwd=wsdir, env=grog_env(root_dir, trace), stdout=subprocess.PIPE, stderr=subprocess.STDOUT,
+                         text=True, errors="replace")
+    t0 = time.time()
+    sent = False
+    while time.time() - t0 < timeout and p.poll() is None:
+        if spec["when_started"] in read_trace(trace, pos)[0]:
+            time.sleep(0.05)
+            p.send_signal(signal.SIGTERM if spec.get("signal") == "TERM" else signal.SIGINT)
+            sent = True
+            break
+        time.sleep(0.03)
+    try:
+        out, _ = p.communicate(timeout=timeout)
+    except subprocess.TimeoutExpired:
+        p.kill()
+        out, _ = p.communicate()
+        return 124, "TIMEOUT after the signal: " + out[-2500:]
+    return (p.returncode if sent else 125), out[-3000:]
+
+
 def read_trace(trace, pos):
     if not os.path.exists(trace):
         return [], pos
@@ -533,6 +582,8 @@ def build_args(step, force_minimal=None):
         a.append("--enable-cache=false")
     if step.get("fail_fast"):
         a.append("--fail-fast")
+    if step.get("platform"):
+        a.append("--platform=" + step["platform"])
     return a
 
 
@@ -593,7 +644,10 @@ def run_real(grog, hist, base, force_minimal=None, upto=None):
         elif s["k"] == "build":
             pre = {p: read_path(wsdir, p) for p in watch}
             pre_taint = taints(root_dir)
-            rc, out = run_grog(grog, wsdir, root_dir, trace, build_args(s, force_minimal))
+            if s.get("interrupt"):
+                rc, out = run_grog_interrupted(grog, wsdir, root_dir, trace, build_args(s, force_minimal), s["interrupt"], pos)
+            else:
+                rc, out = run_grog(grog, wsdir, root_dir, trace, build_args(s, force_minimal))
             ex, pos = read_trace(trace, pos)
             cas_now = cas_snapshot(root_dir)
             rewritten = sorted(n for n, d in cas_now.items() if n in cas_seen and cas_seen[n] != d)
@@ -609,7 +663,7 @@ def run_real(grog, hist, base, force_minimal=None, upto=None):
 def clean_build(grog, ws, patterns, base, algo="xxh3", extra_writes=()):
     """the model-independent oracle: fresh workspace (sources only), fresh cache root, one real build"""
     h = {"ws": ws, "algo": algo, "steps": [{"k": "edit", "ws": ws, "writes": list(extra_writes)},
-                                           {"k": "build", "patterns": patterns}]}
+                                           {"k": "build", "patterns": patterns, "platform": ws.get("platform")}]}
     return run_real(grog, h, base)[0]
 
 
@@ -627,12 +681,12 @@ def model_targets(ws, fixes, extra_files=None):
         writes = [o for o in outs if o["path"][len(pre):] not in t.get("skip", []) and o["path"][len(pre):] != t.get("bin")]
         out.append({
             "label": l,
-            "cmd": {"salt": t["salt"], "beh": t.get("beh", 0), "writes": writes,
+            "cmd": {"salt": t["salt"] + ("@" + ws["platform"] if t.get("usesplat") and ws.get("platform") else ""), "beh": t.get("beh", 0), "writes": writes,
                     "sets": [[p, c] for p, c in t.get("sets", [])], "split": bool(t.get("split"))},
             "inputs": [pre + r for r in resolved_inputs(ws, l, extra_files)],
             "outs": outs, "deps": deps,
             "hdeps": deps if fixes["alias"] else old, "ldeps": deps if fixes["alias"] else old,
-            "fp": sorted([k, v] for k, v in t.get("fp", {}).items()), "plat": "",
+            "fp": sorted([k, v] for k, v in t.get("fp", {}).items()), "plat": "" if t.get("mpc") else ws.get("platform", ""),
             "noCache": bool(t.get("nocache")),
             "checks": [[c["flag"], c["exp"]] for c in t.get("checks", [])],
         })
@@ -656,6 +710,8 @@ def model_request(hist, fixes=ALL_FIXES, force_minimal=None):
                     writes.append([p, c])
             for w in s.get("writes", []):
                 if isinstance(w, dict):
+                    if "stampall" in w:
+                        continue        # timestamps are not part of the model's state
                     if "dirtamper" in w:
                         writes.append({"path": w["dirtamper"], "op": w["op"]})
                         continue
@@ -1647,7 +1703,8 @@ def describe(hist):
             out.append("run " + " ".join(s["targets"]) + (" minimal" if s.get("minimal") else ""))
         else:
             fl = ("" if s.get("enable_cache", True) else " --enable-cache=false") + (" minimal" if s.get("minimal") else "") + \
-                 (" --fail-fast" if s.get("fail_fast") else "")
+                 (" --fail-fast" if s.get("fail_fast") else "") + (" --platform=" + s["platform"] if s.get("platform") else "") + \
+                 (" [interrupted by SIG%s once %s runs]" % (s["interrupt"].get("signal", "INT"), s["interrupt"]["when_started"]) if s.get("interrupt") else "")
             out.append("build " + " ".join(s["patterns"]) + fl)
     return out
 
